@@ -14,7 +14,9 @@ func init() {
 	register(&PropDef{ID: "C08", Num: 8, Gen: genC08, Oracle: oracleC08, Level: "exploration"})
 }
 
-var goodCloseCodes = []int{1000, 1001, 1002, 1003, 1007, 1008, 1009, 1010, 1011, 3000, 3999, 4000, 4999}
+// 1012 and 1013 were registered with IANA after RFC 6455; the package exports
+// names for them (CloseServiceRestart, CloseTryAgainLater), so applications send them.
+var goodCloseCodes = []int{1000, 1001, 1002, 1003, 1007, 1008, 1009, 1010, 1011, 1012, 1013, 3000, 3999, 4000, 4999}
 
 func genCtlData(r *PRNG) []byte {
 	d := make([]byte, r.Pick([]int{0, 1, 2, 5, 124, 125, r.Range(0, 125)}))
